@@ -378,7 +378,7 @@ fn counts(tier: &str) -> Vec<(&'static str, u64)> {
     if tier == "thorough" {
         vec![("glif", 900_000), ("ufo", 240_000), ("ds", 200_000), ("api", 260_000), ("names", 400_000), ("values", 400_000)]
     } else {
-        vec![("glif", 9_000), ("ufo", 3_000), ("ds", 2_000), ("api", 3_000), ("names", 3_000), ("values", 6_000)]
+        vec![("glif", 9_000), ("ufo", 3_000), ("ds", 2_000), ("api", 3_000), ("names", 3_000), ("values", 8_000)]
     }
 }
 
